@@ -772,7 +772,13 @@ func (s *scanner) ReadStreamData(dict Dict) (stm *Stream, err error) {
 	lengthObj, hasLength := dict["Length"]
 	declared := int64(-1)
 	if hasLength {
-		if n, err := s.getInt(lengthObj); err == nil && n >= 0 {
+		n, err := s.getInt(lengthObj)
+		if IsReadError(err) && !errors.Is(err, io.EOF) && !errors.Is(err, io.ErrUnexpectedEOF) {
+			// the length could not be read (as opposed to: is unusable or,
+			// in a truncated file, incomplete)
+			return nil, err
+		}
+		if err == nil && n >= 0 {
 			declared = int64(n)
 		}
 	}
@@ -812,8 +818,16 @@ func (s *scanner) ReadStreamData(dict Dict) (stm *Stream, err error) {
 		crypt = &filterCrypt{enc: s.enc, ref: s.encRef}
 	}
 
+	declaredOK := false
+	if declared >= 0 {
+		declaredOK, err = endstreamAt(origReader, start+declared)
+		if err != nil {
+			return nil, err
+		}
+	}
+
 	var l int64
-	if declared >= 0 && endstreamAt(origReader, start+declared) {
+	if declaredOK {
 		l = declared
 		err = s.Discard(l)
 		if err != nil {
@@ -837,7 +851,10 @@ func (s *scanner) ReadStreamData(dict Dict) (stm *Stream, err error) {
 			return nil, err
 		}
 		l = eolPos - start
-		l = trimTrailingEOL(origReader, start, l)
+		l, err = trimTrailingEOL(origReader, start, l)
+		if err != nil {
+			return nil, err
+		}
 	}
 
 	// /Length describes one serialisation of the stream rather than the
@@ -861,27 +878,34 @@ func (s *scanner) ReadStreamData(dict Dict) (stm *Stream, err error) {
 // searching for endstreamPat.  The pattern consumes one EOL byte, so
 // length ends just before that byte.  The only thing left to remove is
 // the \r of a \r\n marker; any other trailing EOL is stream content.
-func trimTrailingEOL(r io.ReaderAt, start, length int64) int64 {
+func trimTrailingEOL(r io.ReaderAt, start, length int64) (int64, error) {
 	if length <= 0 {
-		return length
+		return length, nil
 	}
 	var probe [2]byte
-	n, _ := r.ReadAt(probe[:], start+length-1)
+	n, err := r.ReadAt(probe[:], start+length-1)
+	if err != nil && err != io.EOF {
+		return 0, err
+	}
 	if n == len(probe) && probe[0] == '\r' && probe[1] == '\n' {
 		length--
 	}
-	return length
+	return length, nil
 }
 
 // endstreamAt reports whether the bytes at absolute offset pos, after any run
 // of PDF whitespace, begin with the "endstream" keyword.  ReadStreamData uses
 // it to confirm a declared /Length before trusting it; a length that fails
 // this check is treated as broken and the stream extent is recovered by
-// scanning for endstream instead.
-func endstreamAt(r io.ReaderAt, pos int64) bool {
+// scanning for endstream instead.  Read errors other than io.EOF are
+// returned: they say nothing about the length.
+func endstreamAt(r io.ReaderAt, pos int64) (bool, error) {
 	var buf [64]byte
 	for {
-		n, _ := r.ReadAt(buf[:], pos)
+		n, err := r.ReadAt(buf[:], pos)
+		if err != nil && err != io.EOF {
+			return false, err
+		}
 		i := 0
 		for i < n && class[buf[i]] == space {
 			i++
@@ -891,13 +915,16 @@ func endstreamAt(r io.ReaderAt, pos int64) bool {
 			break
 		}
 		if n < len(buf) {
-			return false // reached EOF inside the whitespace run
+			return false, nil // reached EOF inside the whitespace run
 		}
 		pos += int64(n)
 	}
 	var kw [9]byte // len("endstream")
-	n, _ := r.ReadAt(kw[:], pos)
-	return n == len(kw) && string(kw[:]) == "endstream"
+	n, err := r.ReadAt(kw[:], pos)
+	if err != nil && err != io.EOF {
+		return false, err
+	}
+	return n == len(kw) && string(kw[:]) == "endstream", nil
 }
 
 func (s *scanner) ReadHeaderVersion() (Version, error) {
